@@ -35,12 +35,13 @@ import (
 type op struct {
 	K string `json:"k"`           // get | read | close | ungate | age | clean | closemgr
 	A int    `json:"a,omitempty"` // get: file index; read/close/ungate: index into the open list (mod its length); age: file index
-	B int    `json:"b,omitempty"` // get: 0 GET, 1 HEAD, 2 If-Modified-Since, 3 GET parked in Stat; close: 1 = Seek fails; closemgr: 1 = via CleanStop
+	B int    `json:"b,omitempty"` // get: 0 GET, 1 HEAD, 2 If-Modified-Since, 3 GET parked in Stat, 4 Range ok, 5 Range unsatisfiable, 6 Accept-Encoding gzip, 7 reader Open fails; close: 1 = Seek fails; closemgr: 1 = via CleanStop
 }
 
 type desc struct {
 	Mode string `json:"mode"` // replay | stress | osfs
 	Noop bool   `json:"noop,omitempty"`
+	Comp bool   `json:"comp,omitempty"` // FS.Compress
 	Ops  []op   `json:"ops,omitempty"`
 	// stress / osfs
 	Workers int   `json:"workers,omitempty"`
@@ -54,6 +55,8 @@ type desc struct {
 type memData struct {
 	data   []byte
 	noSeek bool
+	dir    []string // directory: names of its entries
+	isDir  bool
 }
 
 type memFS struct {
@@ -65,6 +68,7 @@ type memFS struct {
 	reached  chan *memHandle
 	active   func(h *memHandle) int // bodies still open on the fsFile whose main handle is h
 	modTime  time.Time
+	failIn   int // > 0: the failIn-th Open from now fails
 }
 
 type memHandle struct {
@@ -80,6 +84,7 @@ type memHandle struct {
 	failSeek atomic.Bool
 	release  chan struct{}
 	num      int // fid or bid, assigned by the replayer
+	isDir    bool
 }
 
 type seekHandle struct{ *memHandle }
@@ -92,7 +97,13 @@ func (m *memFS) Open(name string) (fs.File, error) {
 	if !ok {
 		return nil, &fs.PathError{Op: "open", Path: name, Err: fs.ErrNotExist}
 	}
-	h := &memHandle{fs: m, idx: len(m.handles), name: name, data: d.data, num: -1}
+	if m.failIn > 0 {
+		m.failIn--
+		if m.failIn == 0 {
+			return nil, &fs.PathError{Op: "open", Path: name, Err: fs.ErrPermission}
+		}
+	}
+	h := &memHandle{fs: m, idx: len(m.handles), name: name, data: d.data, num: -1, isDir: d.isDir}
 	m.handles = append(m.handles, h)
 	m.events = append(m.events, fmt.Sprintf("open %d", h.idx))
 	if d.noSeek {
@@ -105,13 +116,38 @@ type memInfo struct {
 	name string
 	size int64
 	mod  time.Time
+	dir  bool
+}
+
+func (i memInfo) Type() fs.FileMode          { return i.Mode().Type() }
+func (i memInfo) Info() (fs.FileInfo, error) { return i, nil }
+
+// ReadDir makes memFS an fs.ReadDirFS: createDirIndex lists a directory without opening a handle.
+func (m *memFS) ReadDir(name string) ([]fs.DirEntry, error) {
+	name = strings.TrimPrefix(name, "/")
+	m.mu.Lock()
+	defer m.mu.Unlock()
+	d, ok := m.files[name]
+	if !ok || !d.isDir {
+		return nil, &fs.PathError{Op: "readdir", Path: name, Err: fs.ErrNotExist}
+	}
+	var out []fs.DirEntry
+	for _, e := range d.dir {
+		out = append(out, memInfo{name: e, size: int64(len(m.files[name+"/"+e].data)), mod: m.modTime})
+	}
+	return out, nil
 }
 
 func (i memInfo) Name() string       { return i.name }
 func (i memInfo) Size() int64        { return i.size }
-func (i memInfo) Mode() fs.FileMode  { return 0o444 }
+func (i memInfo) Mode() fs.FileMode {
+	if i.dir {
+		return fs.ModeDir | 0o555
+	}
+	return 0o444
+}
 func (i memInfo) ModTime() time.Time { return i.mod }
-func (i memInfo) IsDir() bool        { return false }
+func (i memInfo) IsDir() bool        { return i.dir }
 func (i memInfo) Sys() any           { return nil }
 
 func (h *memHandle) Stat() (fs.FileInfo, error) {
@@ -129,13 +165,16 @@ func (h *memHandle) Stat() (fs.FileInfo, error) {
 		m.reached <- h
 		<-h.release
 	}
-	return memInfo{name: h.name, size: int64(len(h.data)), mod: m.modTime}, nil
+	return memInfo{name: filepath.Base(h.name), size: int64(len(h.data)), mod: m.modTime, dir: h.isDir}, nil
 }
 
 func (h *memHandle) Read(p []byte) (int, error) {
 	if h.closes.Load() > 0 {
 		h.badreads.Add(1)
 		return 0, fs.ErrClosed
+	}
+	if h.isDir {
+		return 0, fmt.Errorf("read %s: is a directory", h.name)
 	}
 	if h.pos >= int64(len(h.data)) {
 		return 0, io.EOF
@@ -189,11 +228,32 @@ func handleOf(f fs.File) *memHandle {
 
 var fileNames = []string{"a.html", "b.html", "c.js", "noext", "bad"}
 
+// request targets of the replay: plain files, a file whose header cannot be read, a directory with index.html,
+// a directory without (generated index), an incompressible file, a directory without trailing slash (redirect)
+var reqPaths = []string{"/a.html", "/b.html", "/c.js", "/noext", "/bad", "/dir/", "/plain/", "/rnd.bin", "/dir"}
+
+func pathIndex(path string) int {
+	for i, p := range reqPaths {
+		if p == path {
+			return i
+		}
+	}
+	return 9
+}
+
 func newMemFS() *memFS {
 	m := &memFS{files: map[string]*memData{}, reached: make(chan *memHandle, 8), modTime: time.Unix(1700000000, 0)}
 	for i, n := range fileNames {
 		m.files[n] = &memData{data: []byte(strings.Repeat(string(rune('a'+i)), 100+3000*i)), noSeek: n == "bad"}
 	}
+	m.files["dir"] = &memData{isDir: true, dir: []string{"index.html"}}
+	m.files["dir/index.html"] = &memData{data: []byte(strings.Repeat("<p>index</p>", 40))}
+	m.files["plain"] = &memData{isDir: true, dir: []string{"x.txt"}}
+	m.files["plain/x.txt"] = &memData{data: []byte("hello")}
+	rnd := rand.New(rand.NewSource(99))
+	rb := make([]byte, 5000)
+	rnd.Read(rb)
+	m.files["rnd.bin"] = &memData{data: rb} // does not compress: served from its handle even with Accept-Encoding
 	return m
 }
 
@@ -224,10 +284,13 @@ func waitFor(f func() bool) bool {
 	}
 }
 
-func newCtx(path string, method string, ims bool, modTime time.Time) *fasthttp.RequestCtx {
+func newCtx(path string, method string, ims bool, modTime time.Time, hdr ...string) *fasthttp.RequestCtx {
 	var req fasthttp.Request
 	req.Header.SetMethod(method)
 	req.SetRequestURI(path)
+	for i := 0; i+1 < len(hdr); i += 2 {
+		req.Header.Set(hdr[i], hdr[i+1])
+	}
 	if ims {
 		req.Header.Set("If-Modified-Since", string(fasthttp.AppendHTTPDate(nil, modTime)))
 	}
@@ -250,6 +313,7 @@ type body struct {
 
 type parked struct {
 	h    int
+	key  int
 	file int
 	hnd  *memHandle
 	ctx  *fasthttp.RequestCtx
@@ -276,6 +340,7 @@ type replayer struct {
 	kinds    map[string]int
 	stuck    bool
 	leak     bool
+	virt     map[any]int // fsFile without a handle (ff.f == nil) -> fid
 }
 
 // number the handles opened since the last call, report main handles opened / closed (in order)
@@ -314,6 +379,18 @@ func (rp *replayer) scan() (opened []*memHandle, closedMain []*memHandle) {
 
 func n(i int) string { return fmt.Sprintf("%d%%nat", i) }
 
+func (rp *replayer) numOf(e fasthttp.VerifFsFile) int {
+	if h := handleOf(e.F); h != nil {
+		return h.num
+	}
+	if v, ok := rp.virt[e.ID]; ok {
+		return v
+	}
+	return 98
+}
+
+func keyOfEntry(e fasthttp.VerifFsFile) int { return e.Kind*10 + pathIndex(e.Path) }
+
 func (rp *replayer) obs() string {
 	var cache, pend []string
 	closed := true
@@ -321,19 +398,22 @@ func (rp *replayer) obs() string {
 		c, p, cl, ok := rp.v.Snapshot()
 		if ok {
 			closed = cl
-			sort.Slice(c, func(i, j int) bool { return keyOf(c[i].Path) < keyOf(c[j].Path) })
+			sort.Slice(c, func(i, j int) bool { return keyOfEntry(c[i]) < keyOfEntry(c[j]) })
 			for _, e := range c {
-				cache = append(cache, fmt.Sprintf("(%s, %s, %s)", n(keyOf(e.Path)), n(handleOf(e.F).num), n(e.Readers)))
+				cache = append(cache, fmt.Sprintf("(%s, %s, %s)", n(keyOfEntry(e)), n(rp.numOf(e)), n(e.Readers)))
 			}
-			sort.Slice(p, func(i, j int) bool { return handleOf(p[i].F).num < handleOf(p[j].F).num })
+			sort.Slice(p, func(i, j int) bool { return rp.numOf(p[i]) < rp.numOf(p[j]) })
 			for _, e := range p {
-				pend = append(pend, fmt.Sprintf("(%s, %s)", n(handleOf(e.F).num), n(e.Readers)))
+				pend = append(pend, fmt.Sprintf("(%s, %s)", n(rp.numOf(e)), n(e.Readers)))
 			}
 		}
 	} else {
 		closed = rp.d.Noop
 	}
 	fc := make([]string, rp.nextF)
+	for i := range fc {
+		fc[i] = n(0) // files without a handle stay at 0
+	}
 	bc := make([]string, rp.nextB)
 	rp.m.mu.Lock()
 	for _, h := range rp.m.handles {
@@ -375,58 +455,147 @@ func releases(closedMain []*memHandle) []string {
 	return out
 }
 
-// labels of what a request did after (and including) its SetFileToCache / cache hit
-func (rp *replayer) finishRequest(ctx *fasthttp.RequestCtx, h, file, mode int, mainOpened *memHandle, closedMain []*memHandle, pre []string) {
-	labels := pre
-	status := ctx.Response.StatusCode()
-	if status == fasthttp.StatusNotFound {
-		if mainOpened != nil {
-			if mainOpened.closes.Load() > 0 { // the error path closed what it had opened
-				labels = append(labels, "OpenAbort "+n(mainOpened.num))
-			} else { // ... or forgot to (finding open-error-leak)
-				labels = append(labels, "OpenFail "+n(mainOpened.num))
-				rp.kinds["(leak)"]++
-				rp.leak = true
+func stated(hs []*memHandle) []*memHandle {
+	var out []*memHandle
+	for _, h := range hs {
+		if h.stated {
+			out = append(out, h)
+		}
+	}
+	return out
+}
+
+// Labels of one finished request.  mains: the handles it opened and Stat'ed (candidates for fsFile.f), in order;
+// firstEmitted: the Open label of mains[0] went out already (request was parked in that Stat).
+func (rp *replayer) finishRequest(ctx *fasthttp.RequestCtx, h, key, mode int, mains []*memHandle, firstEmitted bool, closedMain []*memHandle) {
+	var labels []string
+	aborted := map[*memHandle]bool{}
+	openLbl := func(i int, m *memHandle) {
+		if !(i == 0 && firstEmitted) {
+			labels = append(labels, fmt.Sprintf("Open %s", hlib.Z(int64(len(m.data)))))
+		}
+	}
+	abort := func(i int, m *memHandle) {
+		openLbl(i, m)
+		if m.closes.Load() > 0 { // opened and closed again without becoming an fsFile: directory probe, compression source, error path
+			labels = append(labels, "OpenAbort "+n(m.num))
+			aborted[m] = true
+		} else { // opened and forgotten
+			labels = append(labels, "OpenFail "+n(m.num))
+			rp.kinds["(leak)"]++
+			rp.leak = true
+		}
+	}
+	rest := func() []*memHandle {
+		var out []*memHandle
+		for _, c := range closedMain {
+			if !aborted[c] {
+				out = append(out, c)
 			}
 		}
-		rp.emit(labels)
+		return out
+	}
+	status := ctx.Response.StatusCode()
+	switch status {
+	case fasthttp.StatusOK, fasthttp.StatusPartialContent, fasthttp.StatusNotModified, fasthttp.StatusRequestedRangeNotSatisfiable, fasthttp.StatusInternalServerError:
+	default: // 404, 403, 302, 400: no fsFile was produced
+		for i, m := range mains {
+			abort(i, m)
+		}
+		rp.emit(append(labels, releases(rest())...))
 		return
 	}
-	if mainOpened != nil {
-		labels = append(labels, fmt.Sprintf("SetF %s %s %s", n(file), n(mainOpened.num), n(h)))
-	} else {
-		labels = append(labels, fmt.Sprintf("Get %s %s", n(file), n(h)))
+	bodyID := fasthttp.VerifBodyID(ctx)
+	mainF, _ := fasthttp.VerifBodyFiles(ctx)
+	virtual := bodyID != nil && mainF == nil
+	switch {
+	case len(mains) == 0:
+		labels = append(labels, fmt.Sprintf("Get %s %s", n(key), n(h)))
+	case virtual: // everything opened was only read (and closed); the fsFile lives in memory
+		for i, m := range mains {
+			abort(i, m)
+		}
+		vf := rp.nextF
+		rp.nextF++
+		labels = append(labels, "Open (-1)%Z", fmt.Sprintf("SetF %s %s %s", n(key), n(vf), n(h)))
+		if _, known := rp.virt[bodyID]; !known { // (if known: lost the race, SetFileToCache released the new page; nothing to see)
+			rp.virt[bodyID] = vf
+		}
+		rp.kinds["(virtual)"]++
+	default: // the last handle became fsFile.f and went to SetFileToCache
+		for i, m := range mains[:len(mains)-1] {
+			abort(i, m)
+		}
+		last := mains[len(mains)-1]
+		openLbl(len(mains)-1, last)
+		labels = append(labels, fmt.Sprintf("SetF %s %s %s", n(key), n(last.num), n(h)))
 	}
 	switch {
 	case status == fasthttp.StatusNotModified:
 		labels = append(labels, "Dec "+n(h)+" false")
-	case mode == 1: // HEAD
+	case status == fasthttp.StatusInternalServerError: // NewReader failed
+		labels = append(labels, "Dec "+n(h)+" false")
+		rp.kinds["(reader-open-error)"]++
+	case mode == 1 || status == fasthttp.StatusRequestedRangeNotSatisfiable: // HEAD, bad Range: reader made and closed
 		labels = append(labels, "NewReader "+n(h), "Dec "+n(h)+" false")
 	default:
-		labels = append(labels, "NewReader "+n(h))
+		if !virtual {
+			labels = append(labels, "NewReader "+n(h))
+		}
 		if rp.v == nil {
 			rp.v = fasthttp.VerifFSHandlerOf(ctx)
 		}
-		main, _ := fasthttp.VerifBodyFiles(ctx)
-		b := &body{h: h, ctx: ctx, main: handleOf(main)}
-		rp.actMu.Lock()
-		rp.act[b.main]++
-		rp.actMu.Unlock()
+		b := &body{h: h, ctx: ctx, main: handleOf(mainF)}
+		if b.main != nil {
+			rp.actMu.Lock()
+			rp.act[b.main]++
+			rp.actMu.Unlock()
+		}
 		rp.bodies = append(rp.bodies, b)
+		if status == fasthttp.StatusPartialContent {
+			rp.kinds["(range)"]++
+		}
 	}
-	labels = append(labels, releases(closedMain)...)
-	rp.emit(labels)
+	rp.emit(append(labels, releases(rest())...))
 }
 
 func (rp *replayer) get(file, mode int) {
-	file %= len(fileNames)
+	file %= len(reqPaths)
+	mode %= 8
+	special := file == 4 || file == 5 || file == 6 || file == 8
+	if special && (mode == 1 || mode == 2 || mode == 5 || mode == 7) {
+		mode = 0 // requests without a body are only told apart on plain files
+	}
+	kind := 0
+	if rp.d.Comp && mode == 6 {
+		kind = 2 // gzipCacheKind
+	}
+	key := kind*10 + file
 	h := rp.nextH
 	rp.nextH++
 	method := "GET"
 	if mode == 1 {
 		method = "HEAD"
 	}
-	ctx := newCtx("/"+fileNames[file], method, mode == 2, rp.m.modTime)
+	var hdr []string
+	switch mode {
+	case 4:
+		hdr = []string{"Range", "bytes=10-49"}
+	case 5:
+		hdr = []string{"Range", "bytes=99999999-"}
+	case 6:
+		hdr = []string{"Accept-Encoding", "gzip"}
+	}
+	ctx := newCtx(reqPaths[file], method, mode == 2, rp.m.modTime, hdr...)
+	if mode == 7 { // make the reader's own Open fail: first Open on a hit, second on a miss
+		at := 2
+		if rp.cacheKeys()[key] && !rp.closedM && !rp.d.Noop {
+			at = 1
+		}
+		rp.m.mu.Lock()
+		rp.m.failIn = at
+		rp.m.mu.Unlock()
+	}
 	if mode == 3 {
 		rp.m.mu.Lock()
 		rp.m.gateNext = true
@@ -436,7 +605,7 @@ func (rp *replayer) get(file, mode int) {
 		select {
 		case hnd := <-rp.m.reached:
 			rp.scan()
-			rp.parkedL = append(rp.parkedL, &parked{h: h, file: file, hnd: hnd, ctx: ctx, done: done})
+			rp.parkedL = append(rp.parkedL, &parked{h: h, key: key, file: file, hnd: hnd, ctx: ctx, done: done})
 			rp.emit([]string{fmt.Sprintf("Open %s", hlib.Z(int64(len(hnd.data))))})
 			return
 		case <-done: // cache hit: nothing was opened, the gate stays armed: disarm it
@@ -447,16 +616,11 @@ func (rp *replayer) get(file, mode int) {
 	} else {
 		rp.handler(ctx)
 	}
+	rp.m.mu.Lock()
+	rp.m.failIn = 0
+	rp.m.mu.Unlock()
 	opened, closedMain := rp.scan()
-	var mainOpened *memHandle
-	var pre []string
-	for _, o := range opened {
-		if o.stated {
-			mainOpened = o
-			pre = append(pre, fmt.Sprintf("Open %s", hlib.Z(int64(len(o.data)))))
-		}
-	}
-	rp.finishRequest(ctx, h, file, mode, mainOpened, closedMain, pre)
+	rp.finishRequest(ctx, h, key, mode, stated(opened), false, closedMain)
 }
 
 func (rp *replayer) ungate(k int) {
@@ -473,8 +637,8 @@ func (rp *replayer) ungate(k int) {
 		rp.stuck = true
 		return
 	}
-	_, closedMain := rp.scan()
-	rp.finishRequest(p.ctx, p.h, p.file, 0, p.hnd, closedMain, nil)
+	opened, closedMain := rp.scan()
+	rp.finishRequest(p.ctx, p.h, p.key, 0, append([]*memHandle{p.hnd}, stated(opened)...), true, closedMain)
 }
 
 func (rp *replayer) read(k int) {
@@ -502,9 +666,11 @@ func (rp *replayer) closeBody(k int, seekFail bool) {
 			seekFail = false
 		}
 	}
-	rp.actMu.Lock()
-	rp.act[b.main]--
-	rp.actMu.Unlock()
+	if b.main != nil {
+		rp.actMu.Lock()
+		rp.act[b.main]--
+		rp.actMu.Unlock()
+	}
 	_ = b.ctx.Response.CloseBodyStream()
 	_, closedMain := rp.scan()
 	labels := []string{"Dec " + n(b.h) + " " + hlib.Bool(seekFail)}
@@ -513,7 +679,9 @@ func (rp *replayer) closeBody(k int, seekFail bool) {
 
 func (rp *replayer) age(file int) {
 	if rp.v != nil {
-		rp.v.Age(0, "/"+fileNames[file%len(fileNames)], 2*time.Hour)
+		for _, kind := range []int{0, 2} {
+			rp.v.Age(kind, reqPaths[file%len(reqPaths)], 2*time.Hour)
+		}
 	}
 }
 
@@ -524,7 +692,7 @@ func (rp *replayer) cacheKeys() map[int]bool {
 	}
 	c, _, _, _ := rp.v.Snapshot()
 	for _, e := range c {
-		out[keyOf(e.Path)] = true
+		out[keyOfEntry(e)] = true
 	}
 	return out
 }
@@ -536,11 +704,16 @@ func (rp *replayer) clean() {
 	before := rp.cacheKeys()
 	rp.v.CleanCache()
 	after := rp.cacheKeys()
-	var exp []string
-	for k := range fileNames {
-		if before[k] && !after[k] {
-			exp = append(exp, n(k))
+	var ks []int
+	for k := range before {
+		if !after[k] {
+			ks = append(ks, k)
 		}
+	}
+	sort.Ints(ks)
+	var exp []string
+	for _, k := range ks {
+		exp = append(exp, n(k))
 	}
 	_, closedMain := rp.scan()
 	labels := []string{"CleanTick " + hlib.List(exp)}
@@ -559,7 +732,7 @@ func (rp *replayer) closeMgr(viaStop bool) {
 		var expect []*memHandle
 		pooled := 0
 		for _, e := range append(c, p...) {
-			if e.Readers == 0 {
+			if e.Readers == 0 && handleOf(e.F) != nil {
 				expect = append(expect, handleOf(e.F))
 				pooled += e.Pooled
 			}
@@ -611,13 +784,14 @@ func (rp *replayer) closeMgr(viaStop bool) {
 }
 
 func runReplay(d desc) hlib.Case {
-	rp := &replayer{d: d, m: newMemFS(), stop: make(chan struct{}), act: map[*memHandle]int{}, kinds: map[string]int{}}
+	rp := &replayer{d: d, m: newMemFS(), stop: make(chan struct{}), act: map[*memHandle]int{}, kinds: map[string]int{}, virt: map[any]int{}}
 	rp.m.active = func(h *memHandle) int {
 		rp.actMu.Lock()
 		defer rp.actMu.Unlock()
 		return rp.act[h]
 	}
-	fsys := &fasthttp.FS{FS: rp.m, Root: "", CacheDuration: time.Hour, CleanStop: rp.stop, SkipCache: d.Noop, AcceptByteRange: true}
+	fsys := &fasthttp.FS{FS: rp.m, Root: "", CacheDuration: time.Hour, CleanStop: rp.stop, SkipCache: d.Noop, AcceptByteRange: true,
+		IndexNames: []string{"index.html"}, GenerateIndexPages: true, Compress: d.Comp}
 	rp.handler = fsys.NewRequestHandler()
 	if !d.Noop { // the fsHandler is reachable only through a response body: serve c.js once (part of the trace)
 		rp.get(2, 0)
@@ -629,7 +803,7 @@ func runReplay(d desc) hlib.Case {
 		}
 		switch o.K {
 		case "get":
-			rp.get(o.A, o.B%4)
+			rp.get(o.A, o.B)
 		case "read":
 			rp.read(o.A)
 		case "close":
@@ -674,7 +848,7 @@ func runReplay(d desc) hlib.Case {
 	for _, k := range hlib.SortedKeys(rp.kinds) {
 		fmt.Fprintf(&sb, "%s%d,", k, bucket(rp.kinds[k]))
 	}
-	c.Sig = fmt.Sprintf("r%v-%s", d.Noop, sb.String())
+	c.Sig = fmt.Sprintf("r%v%v-%s", d.Noop, d.Comp, sb.String())
 	labelCov.add(rp.kinds)
 	return c
 }
@@ -834,8 +1008,17 @@ func runOsfs(d desc) hlib.Case {
 			panic(err)
 		}
 	}
+	for _, sub := range []string{"sub", "gen"} {
+		if err := os.Mkdir(filepath.Join(dir, sub), 0o755); err != nil {
+			panic(err)
+		}
+	}
+	_ = os.WriteFile(filepath.Join(dir, "sub", "index.html"), []byte(strings.Repeat("<p>i</p>", 50)), 0o644)
+	_ = os.WriteFile(filepath.Join(dir, "gen", "data"), []byte(strings.Repeat("y", 9000)), 0o644) // no extension: header is sniffed
+	names = append(names, "sub/", "gen/", "sub", "gen/data", "missing")
 	stop := make(chan struct{})
-	fsys := &fasthttp.FS{Root: dir, CacheDuration: 20 * time.Millisecond, CleanStop: stop, SkipCache: d.Noop}
+	fsys := &fasthttp.FS{Root: dir, CacheDuration: 20 * time.Millisecond, CleanStop: stop, SkipCache: d.Noop, Compress: d.Comp,
+		AcceptByteRange: true, IndexNames: []string{"index.html"}, GenerateIndexPages: true}
 	handler := fsys.NewRequestHandler()
 	var wg sync.WaitGroup
 	var count, readErrs atomic.Int32
@@ -854,7 +1037,7 @@ func runOsfs(d desc) hlib.Case {
 				o := open[i]
 				open = append(open[:i], open[i+1:]...)
 				got, err := io.Copy(io.Discard, o.ctx.Response.BodyStream())
-				if err != nil || int(got) != o.want {
+				if err != nil || (o.want >= 0 && int(got) != o.want) {
 					readErrs.Add(1)
 				}
 				_ = o.ctx.Response.CloseBodyStream()
@@ -864,7 +1047,20 @@ func runOsfs(d desc) hlib.Case {
 					stopOnce.Do(func() { close(stop) })
 				}
 				name := names[r.Intn(len(names))]
-				ctx := newCtx("/"+name, "GET", r.Intn(8) == 0, time.Now().Add(time.Hour))
+				var hdr []string
+				full := true
+				switch r.Intn(6) {
+				case 0:
+					hdr = []string{"Accept-Encoding", "gzip"}
+					full = !d.Comp
+				case 1:
+					hdr = []string{"Range", "bytes=5-104"}
+					full = false
+				case 2:
+					hdr = []string{"Range", "bytes=999999999-"}
+					full = false
+				}
+				ctx := newCtx("/"+name, "GET", r.Intn(8) == 0, time.Now().Add(time.Hour), hdr...)
 				handler(ctx)
 				if ctx.Response.BodyStream() != nil {
 					buf := make([]byte, 10)
@@ -872,8 +1068,12 @@ func runOsfs(d desc) hlib.Case {
 					if err != nil && err != io.EOF {
 						readErrs.Add(1)
 					}
-					open = append(open, ob{ctx, sizes[name] - nr})
-				} else if ctx.Response.StatusCode() == fasthttp.StatusOK {
+					want := -1 // only the length of a whole plain file is known in advance
+					if sz, ok := sizes[name]; ok && full {
+						want = sz - nr
+					}
+					open = append(open, ob{ctx, want})
+				} else if ctx.Response.StatusCode() == fasthttp.StatusOK && ctx.Response.Header.ContentLength() != 0 {
 					readErrs.Add(1)
 				}
 				if r.Intn(4) == 0 {
@@ -897,7 +1097,7 @@ func runOsfs(d desc) hlib.Case {
 		c.Kind = "osfs-skipcache"
 	}
 	c.Coq = fmt.Sprintf("(CHist [] %s %s)", n(int(readErrs.Load())), n(left))
-	c.Sig = fmt.Sprintf("o%v-%d-%v", d.Noop, d.Workers, d.StopAt < d.Reqs*d.Workers)
+	c.Sig = fmt.Sprintf("o%v%v-%d-%v", d.Noop, d.Comp, d.Workers, d.StopAt < d.Reqs*d.Workers)
 	return c
 }
 
@@ -950,6 +1150,33 @@ func corpus() []desc {
 		c = append(c, desc{Mode: "replay", Ops: ops(s)})
 		c = append(c, desc{Mode: "replay", Noop: true, Ops: ops(s)})
 	}
+	scen2 := []string{ // every other way fs.go opens a handle
+		"g5 r0 c0 g5 c0 a5 t x",                   // directory with index.html: the directory probe is opened and closed, index.html becomes the fsFile
+		"g6 r0 c0 g6 r0 c0 a6 t x",                // directory without index: generated page, an fsFile without a handle
+		"g8 g8 x",                                 // directory without trailing slash: probe closed, redirect
+		"g0:4 r0 c0 g0:5 g0:4 r0 c0 g1:5 x",       // Range: satisfiable (reader seeks), unsatisfiable (reader closed at once), on hit and on miss
+		"g0:7 g0 c0 g0:7 c0 g1:7 g1:7 x",          // bigFileReader cannot open its handle: count given back; with a pooled handle it is not needed
+		"g6:3 g6 u0 c0 c0 x",                      // two first requests for a generated index: the loser's page is released
+		"g5:3 g5 r0 u0 c0 c0 a5 t x",              // same for an index file
+		"g7 c0 g7:4 r0 c0 g3:4 c0 x",              // incompressible and extension-less files, ranges
+		"g6 x r0 c0 g6 c0",                        // generated page held across close
+	}
+	for _, s := range scen2 {
+		c = append(c, desc{Mode: "replay", Ops: ops(s)})
+		c = append(c, desc{Mode: "replay", Noop: true, Ops: ops(s)})
+	}
+	comp := []string{ // FS.Compress over an fs.FS: compressed copies live in memory
+		"g0:6 r0 c0 g0:6 c0 g0 c0 a0 t x",        // compressible: source opened, read, closed; separate cache kind from the plain file
+		"g7:6 r0 c0 g7:6 c0 a7 t x",              // incompressible: the source handle itself becomes the fsFile of the gzip cache
+		"g5:6 c0 g6:6 c0 g5:6 g6:6 c0 c0 x",      // compressed index file and compressed generated page
+		"g0:6 g0:4 r0 r1 c0 c0 x:1",              // Range disables compression
+		"g3:6 c0 g4:6 x",                         // extension-less, and the file whose header cannot be read
+		"g0:6 x g0:6 r0 c0 c0",                   // after close
+	}
+	for _, s := range comp {
+		c = append(c, desc{Mode: "replay", Comp: true, Ops: ops(s)})
+		c = append(c, desc{Mode: "replay", Comp: true, Noop: true, Ops: ops(s)})
+	}
 	for _, s := range leakScenarios {
 		c = append(c, desc{Mode: "replay", Ops: ops(s)})
 		c = append(c, desc{Mode: "replay", Noop: true, Ops: ops(s)})
@@ -960,6 +1187,9 @@ func corpus() []desc {
 	c = append(c, desc{Mode: "osfs", Workers: 4, Reqs: 30, StopAt: 1000, Seed: 4})
 	c = append(c, desc{Mode: "osfs", Workers: 4, Reqs: 30, StopAt: 50, Seed: 5})
 	c = append(c, desc{Mode: "osfs", Noop: true, Workers: 3, Reqs: 20, StopAt: 1000, Seed: 6})
+	c = append(c, desc{Mode: "osfs", Comp: true, Workers: 4, Reqs: 40, StopAt: 1000, Seed: 7}) // compressed copies created on disk concurrently
+	c = append(c, desc{Mode: "osfs", Comp: true, Workers: 4, Reqs: 40, StopAt: 70, Seed: 8})
+	c = append(c, desc{Mode: "osfs", Comp: true, Noop: true, Workers: 3, Reqs: 20, StopAt: 1000, Seed: 9})
 	return c
 }
 
@@ -972,12 +1202,27 @@ func gen(r *rand.Rand, i int) desc {
 	case i%40 == 27:
 		w := 2 + r.Intn(5)
 		q := 10 + r.Intn(30)
-		return desc{Mode: "osfs", Noop: r.Intn(5) == 0, Workers: w, Reqs: q, StopAt: r.Intn(w*q + w*q/2), Seed: r.Int63()}
+		return desc{Mode: "osfs", Noop: r.Intn(5) == 0, Comp: r.Intn(2) == 0, Workers: w, Reqs: q, StopAt: r.Intn(w*q + w*q/2), Seed: r.Int63()}
 	}
-	d := desc{Mode: "replay", Noop: r.Intn(6) == 0}
+	d := desc{Mode: "replay", Noop: r.Intn(6) == 0, Comp: r.Intn(3) == 0}
 	nops := 6 + r.Intn(30)
 	kinds := []string{"get", "get", "get", "get", "read", "read", "close", "close", "close", "ungate", "age", "age", "clean", "clean"}
 	nfiles := 1 + r.Intn(3)
+	pick := func() int {
+		switch r.Intn(12) {
+		case 0:
+			return 3
+		case 1:
+			return 5
+		case 2:
+			return 6
+		case 3:
+			return 7
+		case 4:
+			return 8
+		}
+		return r.Intn(nfiles)
+	}
 	for j := 0; j < nops; j++ {
 		k := kinds[r.Intn(len(kinds))]
 		if r.Intn(40) == 0 {
@@ -986,13 +1231,10 @@ func gen(r *rand.Rand, i int) desc {
 		o := op{K: k, A: r.Intn(4)}
 		switch k {
 		case "get":
-			o.A = r.Intn(nfiles)
-			if r.Intn(25) == 0 {
-				o.A = 3
-			}
-			o.B = []int{0, 0, 0, 1, 2, 3, 3}[r.Intn(7)]
+			o.A = pick()
+			o.B = []int{0, 0, 0, 1, 2, 3, 3, 4, 5, 6, 6, 7}[r.Intn(12)]
 		case "age":
-			o.A = r.Intn(nfiles)
+			o.A = pick()
 		case "close":
 			if r.Intn(8) == 0 {
 				o.B = 1
